@@ -40,6 +40,9 @@ type propSpec struct {
 	Thorough    tierSpec
 	Race        bool
 	Tags        string
+	LevelText   string
+	LevelNote   string
+	Technique   string
 	Fuzz        []string // native fuzz targets (thorough only)
 	FuzzTime    int
 	RlimitAS    uint64 // bytes, 0 = none
@@ -240,6 +243,9 @@ func main() {
 		buildTestBinary(work, nil)
 		os.RemoveAll(work)
 		fmt.Println("setup ok")
+		return
+	case "manifest":
+		writeManifest()
 		return
 	case "replay":
 		if len(os.Args) < 3 {
